@@ -16,6 +16,8 @@ use ckc_rs::cards::seven::Seven;
 use ckc_rs::cards::six::Six;
 use ckc_rs::cards::three::Three;
 use ckc_rs::cards::two::Two;
+use ckc_rs::cards::{HandRanker, HandValidator};
+use ckc_rs::PokerCard;
 
 pub const NREGS: usize = 8;
 pub const NHANDS: usize = 4;
@@ -58,6 +60,8 @@ pub enum Op {
     HandSet { h: u8, k: u8, slot: u8 },
     /// … and is converted to a set at any point of its life
     FromHand { dst: u8, h: u8 },
+    /// some other public function is called on a set or a live hand and its result ignored
+    Env { r: u8, which: u8 },
 }
 
 const K_HAND: usize = 0;
@@ -74,7 +78,8 @@ const K_DRAIN: usize = 10;
 const K_HNEW: usize = 11;
 const K_HSET: usize = 12;
 const K_FROMH: usize = 13;
-const KINDS: [&str; 14] = ["BuildHand", "BuildText", "BuildRaw", "BuildFold", "FoldIn", "Has", "Count", "Single", "Valid", "Peel", "Drain", "HandNew", "HandSet", "FromHand"];
+const K_ENV: usize = 14;
+const KINDS: [&str; 15] = ["BuildHand", "BuildText", "BuildRaw", "BuildFold", "FoldIn", "Has", "Count", "Single", "Valid", "Peel", "Drain", "HandNew", "HandSet", "FromHand", "Env"];
 const FROM_NAMES: [&str; 8] = ["-", "-", "from_two", "from_three", "from_four", "from_five", "from_six", "from_seven"];
 
 // ---- probes -----------------------------------------------------------------
@@ -93,6 +98,8 @@ const PROBE_LIST: &[&str] = &[
     "hand_built_by_setters",
     "hand_reads_back_differently_from_what_it_was_given_or_holds_non_card_words",
     "container_call_panicked_operation_given_up",
+    "environment_call_other_public_function",
+    "environment_call_panicked_and_was_ignored",
     "hand_register_new",
     "hand_register_set",
     "hand_register_set_overwrites_card_also_held_elsewhere",
@@ -182,6 +189,8 @@ struct P {
     hand_setters: usize,
     hand_readback_differs: usize,
     container_panicked: usize,
+    env: usize,
+    env_panicked: usize,
     hreg_new: usize,
     hreg_set: usize,
     hreg_set_dup: usize,
@@ -265,6 +274,8 @@ fn probes() -> &'static P {
         hand_setters: pi("hand_built_by_setters"),
         hand_readback_differs: pi("hand_reads_back_differently_from_what_it_was_given_or_holds_non_card_words"),
         container_panicked: pi("container_call_panicked_operation_given_up"),
+        env: pi("environment_call_other_public_function"),
+        env_panicked: pi("environment_call_panicked_and_was_ignored"),
         hreg_new: pi("hand_register_new"),
         hreg_set: pi("hand_register_set"),
         hreg_set_dup: pi("hand_register_set_overwrites_card_also_held_elsewhere"),
@@ -337,8 +348,8 @@ fn probes() -> &'static P {
     })
 }
 
-// cell = (op kind 14) x (cards-in-register bucket 7) x (has overflow 2) x (result class 4)
-const CELL_BITS: usize = 14 * 7 * 2 * 4;
+// cell = (op kind 15) x (cards-in-register bucket 7) x (has overflow 2) x (result class 4)
+const CELL_BITS: usize = 15 * 7 * 2 * 4;
 fn bucket(n: u32) -> usize {
     match n {
         0 => 0,
@@ -1169,6 +1180,45 @@ impl C15 {
                         }
                     }
                 }
+                Op::Env { r, which } => {
+                    let (rr, hh) = (*r as usize % NREGS, *r as usize % NHANDS);
+                    at(step, kind, sub);
+                    obs.hit(p.env);
+                    obs.cell(cell(kind, model[rr].cards(), model[rr].has_overflow(), *which as usize % 4));
+                    let set = regs[rr];
+                    let hand = hands[hh];
+                    let w = *which as usize;
+                    // results and panics are other properties' subjects and stay out of the digest; C15
+                    // only says that afterwards every set still equals its model
+                    let done = crate::sim::swallow_crate_panic(|| {
+                        use std::hint::black_box as bb;
+                        match w % 8 {
+                            0 => { bb(Two::try_from(set).is_ok()); }
+                            1 => { bb(<u32 as PokerCard>::from_binary_card(set)); }
+                            2 => { bb(BinaryCard::from_ckc(card_word(w % 52))); }
+                            3 => { bb(<u32 as PokerCard>::from_index("Q♦")); }
+                            _ => {
+                                if let Some(h) = hand {
+                                    match h {
+                                        Reg::Five(x) => { if w % 2 == 0 { bb(x.hand_rank_value()); } else { bb(x.sort()); } }
+                                        Reg::Six(x) => { if w % 2 == 0 { bb(x.hand_rank_value()); } else { bb(HandValidator::is_valid(&x)); } }
+                                        Reg::Seven(x) => { if w % 2 == 0 { bb(x.hand_rank_value_and_hand()); } else { bb(x.sort()); } }
+                                        Reg::Two(x) => { bb(x.chen_formula()); }
+                                        Reg::Three(x) => { bb(x.sort()); }
+                                        Reg::Four(x) => { bb(x.are_unique()); }
+                                    }
+                                }
+                            }
+                        }
+                    });
+                    if done.is_none() {
+                        obs.hit(p.env_panicked);
+                    }
+                    ctx.h = fold(ctx.h, (*r as u64) << 8 | *which as u64);
+                    if obs.tracing() {
+                        obs.log(format!("#{} environment call #{} on s{} / hand{} (result ignored)", step, which, rr, hh));
+                    }
+                }
             }
 
             // S1: every register's card bits equal its model; overflow part tracked exactly
@@ -1237,13 +1287,13 @@ impl C15 {
 
 // ---- generation ----------------------------------------------------------------------
 
-// weights: Hand, Text, Raw, BuildFold, FoldIn, Has, Count, Single, Valid, Peel, Drain, HandNew, HandSet, FromHand
-const MIXES: [[u32; 14]; 5] = [
-    [20, 14, 10, 6, 6, 8, 5, 4, 5, 6, 4, 5, 10, 8],  // build heavy
-    [8, 5, 6, 3, 4, 5, 3, 3, 3, 30, 12, 2, 4, 4],   // peel heavy
-    [8, 5, 6, 5, 30, 8, 4, 3, 4, 8, 4, 2, 4, 4],    // fold heavy
-    [8, 5, 6, 3, 5, 24, 10, 9, 10, 5, 3, 2, 4, 4],  // query heavy
-    [10, 8, 8, 4, 10, 12, 6, 5, 6, 12, 6, 3, 8, 6], // balanced
+// weights: Hand, Text, Raw, BuildFold, FoldIn, Has, Count, Single, Valid, Peel, Drain, HandNew, HandSet, FromHand, Env
+const MIXES: [[u32; 15]; 5] = [
+    [20, 14, 10, 6, 6, 8, 5, 4, 5, 6, 4, 5, 10, 8, 4],  // build heavy
+    [8, 5, 6, 3, 4, 5, 3, 3, 3, 30, 12, 2, 4, 4, 4],   // peel heavy
+    [8, 5, 6, 5, 30, 8, 4, 3, 4, 8, 4, 2, 4, 4, 4],    // fold heavy
+    [8, 5, 6, 3, 5, 24, 10, 9, 10, 5, 3, 2, 4, 4, 4],  // query heavy
+    [10, 8, 8, 4, 10, 12, 6, 5, 6, 12, 6, 3, 8, 6, 4], // balanced
 ];
 
 struct Gen<'a> {
@@ -1380,7 +1430,13 @@ impl<'a> Gen<'a> {
 
     fn tokens(&mut self) -> (Vec<Tok>, Vec<u8>) {
         let n = match self.rng.below(if self.deep { 9 } else { 8 }) {
-            8 => 61 + self.rng.usize_below(240),
+            8 => {
+                if self.rng.chance(1, 16) {
+                    300 + self.rng.usize_below(2200) // several KB of text
+                } else {
+                    61 + self.rng.usize_below(240)
+                }
+            }
             0 => 0,
             1 => 1,
             2..=4 => 2 + self.rng.usize_below(6),
@@ -1405,7 +1461,7 @@ impl<'a> Gen<'a> {
                 toks.push(Tok::Card { idx, spell, tail });
                 if junk_rate > 0 && self.rng.chance(1, 8) {
                     // a look-alike of the token just parsed, right behind it
-                    toks.push(Tok::Alias { idx, spell, mode: self.rng.below(6) as u8 });
+                    toks.push(Tok::Alias { idx, spell, mode: self.rng.below(8) as u8 });
                 }
             }
         }
@@ -1571,6 +1627,7 @@ impl World for C15 {
                     g.shadow[r] &= !CARD_MASK;
                     Op::Drain { r: r as u8 }
                 }
+                K_ENV => Op::Env { r: g.reg() as u8, which: g.rng.below(16) as u8 },
                 K_HSET | K_FROMH if g.hshadow.iter().any(|h| h.0 > 0) => {
                     let live: Vec<usize> = (0..NHANDS).filter(|h| g.hshadow[*h].0 > 0).collect();
                     let h = *g.rng.pick(&live);
@@ -1686,7 +1743,7 @@ impl World for C15 {
         for i in 0..52u8 {
             let mut ops = Vec::new();
             for sp in 0..spellings(i as usize) as u8 {
-                for mode in 0..6u8 {
+                for mode in 0..8u8 {
                     ops.push(Op::BuildText { dst: 0, tokens: vec![Tok::Card { idx: i, spell: sp, tail: 0 }, Tok::Alias { idx: i, spell: sp, mode }], seps: vec![0], lead: 0, trail: 0 });
                     ops.push(Op::BuildText { dst: 1, tokens: vec![Tok::Alias { idx: i, spell: sp, mode }], seps: vec![], lead: 0, trail: 0 });
                     ops.push(Op::Valid { r: 1 });
@@ -1694,8 +1751,26 @@ impl World for C15 {
             }
             out.push((format!("look-alike aliases of {}", card_name(i as usize)), ops));
         }
+        // every whitespace character on its own: between two cards, before the first, after the last
+        for (si, _) in SEPARATORS.iter().enumerate() {
+            let si = si as u8;
+            let two = vec![Tok::Card { idx: 0, spell: 0, tail: 0 }, Tok::Card { idx: 14, spell: 3, tail: 0 }];
+            out.push((
+                format!("separator #{} between, before and after", si),
+                vec![
+                    Op::BuildText { dst: 0, tokens: two.clone(), seps: vec![si], lead: 0, trail: 0 },
+                    Op::Count { r: 0 },
+                    Op::BuildText { dst: 1, tokens: two.clone(), seps: vec![si], lead: si + 1, trail: si + 1 },
+                    Op::Count { r: 1 },
+                    Op::BuildText { dst: 2, tokens: vec![Tok::Card { idx: 30, spell: 5, tail: 0 }], seps: vec![], lead: si + 1, trail: 0 },
+                    Op::Single { r: 2 },
+                    Op::BuildText { dst: 3, tokens: vec![Tok::Card { idx: 30, spell: 5, tail: 0 }, Tok::Junk(0), Tok::Card { idx: 51, spell: 7, tail: 0 }, Tok::Card { idx: 8, spell: 1, tail: 0 }], seps: vec![si, si, si], lead: 0, trail: si + 1 },
+                    Op::Drain { r: 3 },
+                ],
+            ));
+        }
         let whole: Vec<Tok> = (0..52u8).rev().map(|i| Tok::Card { idx: i, spell: i % 12, tail: 0 }).collect();
-        out.push(("whole deck as text, reversed, then drain".into(), vec![Op::BuildText { dst: 0, tokens: whole.clone(), seps: (0..51).map(|i| i as u8 % 12).collect(), lead: 8, trail: 4 }, Op::Count { r: 0 }, Op::Drain { r: 0 }]));
+        out.push(("whole deck as text, reversed, then drain".into(), vec![Op::BuildText { dst: 0, tokens: whole.clone(), seps: (0..51).map(|i| (i as usize % SEPARATORS.len()) as u8).collect(), lead: 8, trail: 4 }, Op::Count { r: 0 }, Op::Drain { r: 0 }]));
         let mut junky: Vec<Tok> = Vec::new();
         for (n, t) in whole.iter().enumerate() {
             junky.push(t.clone());
@@ -1736,11 +1811,11 @@ impl World for C15 {
             out.push((format!("deck prefix and suffix of {} cards", k), vec![Op::BuildRaw { dst: 0, bits: prefix }, Op::Count { r: 0 }, Op::Valid { r: 0 }, Op::Single { r: 0 }, Op::Drain { r: 0 }, Op::BuildRaw { dst: 1, bits: suffix }, Op::Count { r: 1 }, Op::Has { r: 1, q: prefix }, Op::Drain { r: 1 }, Op::Valid { r: 1 }]));
         }
         // text with exactly k tokens, k = 0..60 (a token-count limit shows here), plain and with odd separators
-        for k in (0..=60usize).chain([64, 65, 100, 128, 129, 200]) {
+        for k in (0..=60usize).chain([64, 65, 100, 128, 129, 200, 513, 1000, 1025, 2000, 4097, 5000]) {
             // more than 52 tokens: the first ones repeat one card, so that new cards keep appearing up to the last token
             let pad = k.saturating_sub(52);
             let toks: Vec<Tok> = (0..k).map(|t| Tok::Card { idx: if t < pad { 0 } else { ((t - pad) * 37 % 52) as u8 }, spell: (t % 12) as u8, tail: 0 }).collect();
-            out.push((format!("text with {} tokens", k), vec![Op::BuildText { dst: 0, tokens: toks.clone(), seps: vec![], lead: 0, trail: 0 }, Op::Count { r: 0 }, Op::BuildText { dst: 1, tokens: toks, seps: (0..k).map(|t| ((t + k) % 12) as u8).collect(), lead: if k % 2 == 0 { 1 + (k % 12) as u8 } else { 0 }, trail: (k % 3 == 0) as u8 }, Op::Count { r: 1 }]));
+            out.push((format!("text with {} tokens", k), vec![Op::BuildText { dst: 0, tokens: toks.clone(), seps: vec![], lead: 0, trail: 0 }, Op::Count { r: 0 }, Op::BuildText { dst: 1, tokens: toks, seps: (0..k).map(|t| ((t + k) % SEPARATORS.len()) as u8).collect(), lead: if k % 2 == 0 { 1 + (k % SEPARATORS.len()) as u8 } else { 0 }, trail: (k % 3 == 0) as u8 }, Op::Count { r: 1 }]));
         }
         // interleaved peeling of several sets (hidden shared state between peels would show here)
         out.push((
@@ -1833,7 +1908,19 @@ impl World for C15 {
         for k in 0..n as usize {
             slots[k] = rng.below(53) as u8;
         }
-        match shape % 6 {
+        match shape % 7 {
+            6 => {
+                // a long run of conversions and peels (room for something that only goes wrong after
+                // many calls by the other callers)
+                for t in 0..(40 + rng.usize_below(40)) {
+                    let mut sl = [BLANK_SLOT; 7];
+                    for k in 0..n as usize {
+                        sl[k] = rng.below(53) as u8;
+                    }
+                    ops.push(Op::BuildHand { dst: (t % 2) as u8, n, slots: sl, via_setters: false, order: 0 });
+                    ops.push(Op::Peel { r: (t % 2) as u8 });
+                }
+            }
             0 => {
                 // the same hand converted several times
                 for _ in 0..=reps {
@@ -1917,6 +2004,7 @@ impl World for C15 {
             Op::HandNew { .. } => K_HNEW,
             Op::HandSet { .. } => K_HSET,
             Op::FromHand { .. } => K_FROMH,
+            Op::Env { .. } => K_ENV,
         }
     }
 
@@ -1975,6 +2063,7 @@ impl World for C15 {
                 .with("slot_names", J::Arr(slots[..(*n as usize).clamp(2, 7)].iter().map(|s| slot_name(*s)).collect())),
             Op::HandSet { h, k, slot } => J::obj().with("op", J::str("HandSet")).with("h", u(*h)).with("slot_index", u(*k)).with("card", u(*slot)).with("card_name", slot_name(*slot)),
             Op::FromHand { dst, h } => J::obj().with("op", J::str("FromHand")).with("dst", u(*dst)).with("h", u(*h)),
+            Op::Env { r, which } => J::obj().with("op", J::str("Env")).with("r", u(*r)).with("which", u(*which)),
         }
     }
 
@@ -2038,6 +2127,7 @@ impl World for C15 {
             }
             "HandSet" => Ok(Op::HandSet { h: u8f("h")?, k: u8f("slot_index")?, slot: u8f("card")? }),
             "FromHand" => Ok(Op::FromHand { dst: u8f("dst")?, h: u8f("h")? }),
+            "Env" => Ok(Op::Env { r: u8f("r")?, which: u8f("which")? }),
             other => Err(format!("unknown op {}", other)),
         }
     }
